@@ -49,6 +49,8 @@ META = {
             "Round trips, oddness, monotonicity, numerical derivative, Masing doubling, hysteresis closure, Hooke consistency between 1D/2D/3D laws and exact true-stress conversions over generated parameter sets; arguments generated through the strain.", "3 C16"),
     "C17": ("exploration", "runtime monitoring: invariance relation monitors under random rotations and scalings, eigenvalue-definition oracle (numpy.linalg.eigvalsh), sign and accessor monitors with near-tie guards",
             "Every equivalent stress of every generated tensor is compared with its eigenvalue definition, with its value in a rotated frame and under scaling; signs are judged away from ties only; NaN is never accepted.", "3 C17"),
+    "C18": ("exploration", "runtime monitoring: equivariance/invariance relation monitors between analyzer executions (load scaling, cycle scaling, row permutation), exact-data oracle, likelihood-space judgement for optimiser answers",
+            "Every generated test series is analysed repeatedly under unit changes and row permutations by all four analyzers; regression analyzers are compared at 1e-9, Nelder-Mead analyzers in parameter OR likelihood space.", "3 C18"),
     "C03": ("exploration", "runtime monitoring: metamorphic relation monitors between executions (refinement, negation, "
             "affine map, NaN insertion, Series index types), sanitizer replays",
             "Relations between pairs of real executions, each with its own counter; ties that rounding may flip are "
